@@ -298,6 +298,9 @@ def check(ax, case, rec):
             return np.array([a[1] * b[2] - a[2] * b[1], a[2] * b[0] - a[0] * b[2], a[0] * b[1] - a[1] * b[0]])
 
         cmp("cross", fm.cross(X, Y), per_item(cr, [X, Y], [1, 1], 1))
+        # two in-plane vectors: the out-of-plane component, one value per batch item
+        X2, Y2 = np.ascontiguousarray(X[:2]), np.ascontiguousarray(Y[:2])
+        cmp("cross-2d", np.asarray(fm.cross(X2, Y2)), np.asarray(X2[0] * Y2[1] - X2[1] * Y2[0]))
     elif ax.startswith("dot") or ax.startswith("ddot") or ax.startswith("dddot"):
         nc = 3 if ax.startswith("dddot") else (2 if ax.startswith("ddot") else 1)
         a, b = int(ax[-2]), int(ax[-1])
